@@ -156,7 +156,7 @@ def replay(data):
         valid = 1 <= r["len"] <= 32 and 0 <= r["pipe"] <= 5
         ok = (len(radio.tx_fifo) == n0 + 1 and ret is True) if (valid and n0 < 3) else len(radio.tx_fifo) == n0
         return [] if ok else [(data.get("signature", PID + "/load_ack"), "load_ack domain wrong")]
-    if r.get("part") in ("core", "cross", "lists", "perpipe", "burst"):
+    if r.get("part") in ("core", "cross", "lists", "perpipe", "burst", "bidir"):
         return c01.replay(data)
     import importlib
     for modname in ("c02", "c10", "c08", "c03"):
